@@ -1,0 +1,17 @@
+//go:build verif
+
+package sync
+
+// Contracts for the gvc verifier (/verif). Comment-only; never compiled into
+// a normal build.
+
+// Pool slices are 32 KiB unless a caller returned a smaller one; the callers
+// under contract only need a few bytes (assumed, listed in evidence).
+//gvc:func GetByteSlice
+//gvc:  trusted
+//gvc:  ensures result != nil && len(deref(result)) >= 16
+//gvc:end
+
+//gvc:func PutByteSlice
+//gvc:  trusted
+//gvc:end
